@@ -1,11 +1,176 @@
-import QipVerif.Model.Sim
+import QipVerif.Lemmas.SimBorn
+import QipVerif.Lemmas.SimWrites
 /-!
 # C02 — measurement branches obey the Born rule and drive classical control
 
-(first version: the concrete counter-examples of the unrepaired code; the general theorems follow)
+Property theorems only (proofs call `Lemmas/Sim*.lean`).  The model (`Model/Sim.lean`) is the control state
+machine of `CircuitSimulator` over an abstract quantum backend `B`; `branch B c bits₀ ψ r` is the specification:
+the operations of the circuit folded over `(bits, state | None, probability)` with record `r`, a gate acting iff
+its condition holds.  `Fresh cfg cb` = the run works on a list of its own (`cfg.copyCbits`, i.e. fix C02-1, or no
+list passed); `c.Valid` = indices in range, control values non-negative.
 -/
 namespace QipVerif.C02
 open QipVerif.Sim QipVerif.Heap
+
+/-! ## Classical control -/
+
+/-- **cond_iff.** A gate with classical controls `cs` (any number `k`, any order) and value `v < 2^k` acts iff
+`Σ bits[csᵢ]·2^(k-1-i) = v` (first listed bit most significant) — for all `k`, all in-range controls, all bit values
+in `{0,1}`. -/
+theorem cond_iff (cs : List Nat) (v : Nat) (bits : List Int)
+    (hv : v < 2 ^ cs.length) (hr : ∀ c ∈ cs, c < bits.length)
+    (hb : ∀ c ∈ cs, bits.getD c 0 = 0 ∨ bits.getD c 0 = 1) :
+    checkCCV (cs.map Int.ofNat) (v : Int) (some bits)
+      = .ok (decide (valMSB (cs.map fun c => (bits.getD c 0).toNat) = v)) :=
+  checkCCV_spec cs v bits hv hr hb
+
+-- non-vacuity: controls [2,0] (bit 2 most significant), value 2 = binary 10, bits c2=1 c0=0: acts; c2=0 c0=1: does not
+example : checkCCV [2, 0] 2 (some [0, 1, 1]) = .ok true ∧ checkCCV [2, 0] 2 (some [1, 1, 0]) = .ok false := by decide
+
+/-- the value of a digit list is `Σ dᵢ·2^(k-1-i)` -/
+theorem valMSB_eq (b : Nat) (bs : List Nat) : valMSB (b :: bs) = b * 2 ^ bs.length + valMSB bs := valMSB_cons b bs
+
+/-- **Counter-example (condition value out of range).** `X` conditioned on bit 0 with value 2 acts when the bit is
+1, although no value of one bit equals 2.  (Fix C02-2 makes `Gate.__init__` refuse such a gate:
+`Circuit.constructible` with `cfg.checkCcv`.) -/
+theorem C02_counterexample_ccv_out_of_range :
+    checkCCV [0] 2 (some [1]) = .ok true ∧ (∀ b : Nat, b ≤ 1 → valMSB [b] ≠ 2) ∧
+    (Circuit.constructible { copyCbits := true, checkCcv := true, resetPhase := true, pureGetter := true }
+        { nq := 1, ncb := 1, ops := [.gate ⟨0, [0], some [0], 2⟩] } = false) := by
+  refine ⟨by decide, ?_, by decide⟩
+  intro b hb; unfold valMSB; simp; omega
+
+/-! ## Born rule -/
+
+/-- **born_split.** `‖P₀ψ‖² + ‖P₁ψ‖² = ‖ψ‖²` for the projectors on any qubit `t` of any `N`-qubit register,
+any `ψ : (Fin N → Fin 2) → ℂ`. -/
+theorem born_split {N : ℕ} (t : Fin N) (ψ : Vec N) :
+    normSqV (projV t 0 ψ) + normSqV (projV t 1 ψ) = normSqV ψ :=
+  QipVerif.Sim.born_split t ψ
+
+-- non-vacuity: the vector |00⟩+|11⟩ on two qubits, qubit 1
+example : ∃ ψ : Vec 2, normSqV ψ ≠ 0 ∧ normSqV (projV 1 0 ψ) + normSqV (projV 1 1 ψ) = normSqV ψ :=
+  ⟨fun x => if x 0 = x 1 then 1 else 0, by
+    unfold normSqV
+    rw [Fintype.sum_eq_add_sum_compl (fun _ => (0 : Fin 2))]
+    simp
+    positivity, QipVerif.Sim.born_split 1 _⟩
+
+/-- **probs_sum_one.** For every circuit, initial bits and state: the probabilities of all `2^m` records sum to one,
+and so do those of the surviving (non-pruned) records — the list `run_statistics` returns.  `BornOk B` is the only
+analytic input: a measurement splits the weight (`p₀+p₁ = 1`, which `born_split` gives for the ideal backend) and a
+pruned outcome is reported with probability 0. -/
+theorem probs_sum_one {Q P : Type} [Semiring P] (B : Backend Q P) (hB : BornOk B) (c : Circuit)
+    (bits0 : Option (List Int)) (st : Q) :
+    (((records c.numMeas).map (branchEntry B c bits0 st)).map (·.2.1)).sum = 1 ∧
+    ((((records c.numMeas).map (branchEntry B c bits0 st)).filter (fun e => e.1.isSome)).map (·.2.1)).sum = 1 :=
+  branch_probs_sum_one B hB c bits0 st
+
+/-- the ideal backend on `ℂ`-vectors (conditional Born probabilities `‖P_oψ‖²/‖ψ‖²`, any maps of non-zero vectors
+as gates) meets the hypothesis of `probs_sum_one`, by `born_split` -/
+theorem born_backend_ok (N : ℕ) (gate : ℕ → List ℕ → NzVec N → NzVec N) (dephase : ℕ → NzVec N → NzVec N) :
+    BornOk (bornBackend N gate dephase) :=
+  bornBackend_ok N gate dephase
+
+/-! ## Branches, prescribed and unconstrained runs, `run_statistics` -/
+
+/-- **postselect_eq_branch.** `run(state, cbits, measure_results = r)` on a well-formed circuit returns the state
+and probability of the branch of `r` (state `None` if the branch is pruned), and the list it reports holds that
+branch's bits.  The heap is only extended by that one list. -/
+theorem postselect_eq_branch {Q P : Type} [One P] [Mul P] (B : Backend Q P) (cfg : Cfg) (c : Circuit) (hc : c.Valid)
+    (w : World Q P) (st : Q) (cb : Option Ref) (hf : Fresh cfg cb) (r : List Int) (hr : IsRecord c r) :
+    let b := branch B c (initBits c (cb.map w.heap.get)) st r
+    ∃ w' res, run B cfg .sv c w st cb (some r) = (w', .ok res) ∧
+      res.states = [b.st] ∧ res.probs = [b.prob] ∧
+      w'.heap.cells = w.heap.cells ++ b.bits.toList ∧
+      (∀ s, w'.sim = some s → s.cbits.map w'.heap.get = b.bits) := by
+  intro b
+  rw [run_fresh B cfg .sv c w st cb (some r) hf]
+  obtain ⟨hres, hbits⟩ := coreRun_eq_branch B cfg c hc _ (initBits_ok c _) st r hr (some r) w.rng (Or.inl rfl)
+  refine ⟨_, _, by simp only [mkResult, hres]; rfl, rfl, rfl, by simp [hbits, b], ?_⟩
+  intro s hs
+  cases hs
+  rw [hbits]
+  cases hb : (branch B c (initBits c (cb.map w.heap.get)) st r).bits with
+  | none => rfl
+  | some l => simp [Heap.get, Heap.size, List.getD_eq_getElem?_getD, b]
+
+/-- a pruned prescribed record is reported with probability zero -/
+theorem postselect_pruned_prob_zero {Q P : Type} [Semiring P] (B : Backend Q P) (hB : BornOk B) (c : Circuit)
+    (bits0 : Option (List Int)) (st : Q) (r : List Int) (h : (branch B c bits0 st r).st = none) :
+    (branch B c bits0 st r).prob = 0 :=
+  brRun_dead_prob B hB c.ops _ (by intro h'; cases h') h
+
+/-- **unconstrained_run_mem_branches.** A run without `measure_results` whose random draws are the record `r` (any
+record whose branch survives, i.e. any that `np.random.choice` can produce) returns exactly the branch of `r`, which
+is one of the entries of `run_statistics`. -/
+theorem unconstrained_run_mem_branches {Q P : Type} [One P] [Mul P] (B : Backend Q P) (cfg : Cfg) (c : Circuit)
+    (hc : c.Valid) (w : World Q P) (st : Q) (cb : Option Ref) (hf : Fresh cfg cb) (r tail : List Int)
+    (hr : r ∈ records c.numMeas) (hrng : w.rng = r ++ tail)
+    (halive : (branch B c (initBits c (cb.map w.heap.get)) st r).st.isSome) :
+    let b := branch B c (initBits c (cb.map w.heap.get)) st r
+    (∃ w' res, run B cfg .sv c w st cb none = (w', .ok res) ∧ res.states = [b.st] ∧ res.probs = [b.prob] ∧
+      (∀ s, w'.sim = some s → s.cbits.map w'.heap.get = b.bits)) ∧
+    (b.st, b.prob, b.bits) ∈
+      ((records c.numMeas).map (branchEntry B c (initBits c (cb.map w.heap.get)) st)).filter (fun e => e.1.isSome) := by
+  intro b
+  constructor
+  · rw [run_fresh B cfg .sv c w st cb none hf]
+    obtain ⟨hres, hbits⟩ := coreRun_eq_branch B cfg c hc _ (initBits_ok c _) st r (records_isRecord c r hr) none w.rng
+      (Or.inr ⟨rfl, tail, hrng⟩)
+    refine ⟨_, _, by simp only [mkResult, hres]; rfl, rfl, rfl, ?_⟩
+    intro s hs
+    cases hs
+    rw [hbits]
+    cases hb : (branch B c (initBits c (cb.map w.heap.get)) st r).bits with
+    | none => rfl
+    | some l => simp [Heap.get, Heap.size, List.getD_eq_getElem?_getD]
+  · rw [List.mem_filter]
+    exact ⟨List.mem_map.mpr ⟨r, hr, rfl⟩, halive⟩
+
+/-- **stat_eq_branches.** `run_statistics` on a well-formed circuit: no exception; `new` lists one entry per record
+(in the order of `itertools.product`), whose state, probability and — read through the final heap — bits are those of
+the record's branch; the result keeps the entries with a state; each record has a list of its own (references
+pairwise different, all allocated by this call); the caller's cells are unchanged. -/
+theorem stat_eq_branches {Q P : Type} [One P] [Mul P] (B : Backend Q P) (cfg : Cfg) (c : Circuit) (hc : c.Valid)
+    (w : World Q P) (st : Q) (cb : Option Ref) (hf : Fresh cfg cb) (hcb : CbOk w cb) :
+    ∃ (w' : World Q P) (new : List (Option Q × P × Option Ref)) (extra : List (List Int)),
+      runStatistics B cfg .sv c w st cb =
+        (w', .ok { states := (new.filter (fun x => x.1.isSome)).map (·.1),
+                   probs := (new.filter (fun x => x.1.isSome)).map (·.2.1),
+                   cbits := some ((new.filter (fun x => x.1.isSome)).map (·.2.2)) }) ∧
+      w'.heap.cells = w.heap.cells ++ extra ∧
+      new.map (derefEntry w'.heap) =
+        (records c.numMeas).map (branchEntry B c (initBits c (cb.map w.heap.get)) st) ∧
+      (∀ e ∈ new, ∀ r : Nat, e.2.2 = some r → w.heap.size ≤ r ∧ r < w'.heap.size) ∧
+      (new.filterMap (·.2.2)).Nodup := by
+  obtain ⟨w', new, extra, h1, h2, h3, h4, h5, _, _⟩ := runStatistics_fresh B cfg c hc st cb hf w hcb
+  exact ⟨w', new, extra, h1, h2, h3, h4, h5⟩
+
+/-- **cbits_reported.** The bits of a surviving record are the record's writes applied in program order to the
+initial bits: every measurement with a `classical_store` overwrites that bit with its outcome, so the last write
+to a bit wins; gates never write. -/
+theorem cbits_reported {Q P : Type} [One P] [Mul P] (B : Backend Q P) (c : Circuit) (bits0 : Option (List Int)) (st : Q)
+    (r : List Int) (hr : IsRecord c r) (halive : (branch B c bits0 st r).st.isSome) :
+    (branch B c bits0 st r).bits = applyWrites c.ops r bits0 :=
+  brRun_bits B c.ops _ (by rw [← numMeas_eq]; exact hr.1) halive
+
+-- non-vacuity: two measurements into the same bit, record [0,1]: the second outcome is reported
+example : applyWrites [.meas 0 (some 0), .gate ⟨0, [0], none, 0⟩, .meas 0 (some 0)] [0, 1] (some [7, 7]) = some [1, 7] := by
+  decide
+
+/-- **A conditioned gate acts in exactly the branches whose bits equal its condition**: in the branch semantics
+the gate's action is decided by `firesB`, which for an in-range condition is the integer comparison of `cond_iff`. -/
+theorem fires_iff (g : Gate) (cs : List Nat) (v : Nat) (bits : List Int) (hcc : g.cc = some (cs.map Int.ofNat))
+    (hccv : g.ccv = v) (hv : v < 2 ^ cs.length) (hr : ∀ c ∈ cs, c < bits.length)
+    (hb : ∀ c ∈ cs, bits.getD c 0 = 0 ∨ bits.getD c 0 = 1) :
+    firesB g (some bits) = decide (valMSB (cs.map fun c => (bits.getD c 0).toNat) = v) := by
+  unfold firesB fires
+  rw [hcc, hccv]
+  simp only
+  rw [checkCCV_spec cs v bits hv hr hb]
+
+/-! ## Counter-examples on the unrepaired code (exact backend of the driver, decided by the kernel) -/
 
 /-- an empty world whose heap holds the caller's lists -/
 def world0 (lists : List (List Int)) : World Exact.QS Exact.Prob :=
@@ -19,19 +184,31 @@ def cfgFixed : Cfg := { copyCbits := true, checkCcv := true, resetPhase := true,
 def circHM : Circuit := { nq := 1, ncb := 1, ops := [.gate ⟨4, [0], none, 0⟩, .meas 0 (some 0)] }
 def ket0 : Exact.QS := { n := 1, k := 0, vecs := [[1, 0]] }
 
-/-- **Counter-example (condition value out of range).** `X` conditioned on bit 0 with value 2 fires when
-the bit is 1, although no value of one bit equals 2. -/
-theorem C02_counterexample_ccv_out_of_range :
-    checkCCV [0] 2 (some [1]) = .ok true ∧ ∀ b : Int, (b = 0 ∨ b = 1) → b ≠ 2 := by
-  refine ⟨by decide, ?_⟩
-  intro b hb; omega
-
 /-- **Counter-example (aliasing, unrepaired code).** `run_statistics(psi, cbits=[0])` on `SNOT; measure → c0`:
-the caller's list ends as `[1]` and both records report the same list object. -/
+the caller's list ends as `[1]` and both records report the same list object; with the repaired `initialize` the
+caller's list is untouched and the records have different lists holding `[0]` and `[1]`. -/
 theorem C02_counterexample_cbits_alias :
     (runStatistics Exact.backend cfgCurrent .sv circHM (world0 [[0]]) ket0 (some 0)).1.heap.get 0 = [1] ∧
     (runStatistics Exact.backend cfgCurrent .sv circHM (world0 [[0]]) ket0 (some 0)).2.toOption.map (·.cbits)
-      = some (some [some 0, some 0]) := by
+      = some (some [some 0, some 0]) ∧
+    (runStatistics Exact.backend cfgFixed .sv circHM (world0 [[0]]) ket0 (some 0)).1.heap.cells = [[0], [0], [1]] ∧
+    (runStatistics Exact.backend cfgFixed .sv circHM (world0 [[0]]) ket0 (some 0)).2.toOption.map (·.cbits)
+      = some (some [some 1, some 2]) := by
+  decide +kernel
+
+/-- `SNOT 0; measure 0 → c0; X 1 if c0 = 1` on two qubits -/
+def circFF : Circuit :=
+  { nq := 2, ncb := 1, ops := [.gate ⟨4, [0], none, 0⟩, .meas 0 (some 0), .gate ⟨0, [1], some [0], 1⟩] }
+def ket00 : Exact.QS := { n := 2, k := 0, vecs := [[1, 0, 0, 0]] }
+
+/-- **Counter-example (density-matrix mode ignores feed-forward).** For `SNOT 0; measure 0 → c0; X 1 if c0`, the
+branches are `|00⟩` and `|11⟩` (each with probability 1/2), but the density-matrix run — whose measurement never
+writes classical bits — ends in the ensemble `{|00⟩, |10⟩}`: the conditioned `X` is skipped in both components. -/
+theorem C02_counterexample_dm_feedforward :
+    ((runStatistics Exact.backend cfgFixed .sv circFF (world0 []) ket00 none).2.toOption.map (·.states))
+      = some [some ⟨2, 1, [[1, 0, 0, 0]]⟩, some ⟨2, 1, [[0, 0, 0, 1]]⟩] ∧
+    ((run Exact.backend cfgFixed .dm circFF (world0 []) ket00 none none).2.toOption.map (·.states))
+      = some [some ⟨2, 1, [[1, 0, 0, 0], [0, 0, 1, 0]]⟩] := by
   decide +kernel
 
 end QipVerif.C02
